@@ -13,7 +13,7 @@ RULE = ("seeded well-formed sequences (1-3 channels sharing pitches, notes spann
         "Stratum A avoids the listed known-finding trigger (non-note event on the final tick) and must be entirely clean; "
         "stratum B includes it. Non-trivial: >= 2 pieces and (a note cut at a boundary or an event on a boundary).")
 PLAN = {"quick": {"cases": 6000, "jobs": 4, "timeout": 600},
-        "thorough": {"cases": 400000, "jobs": 16, "timeout": 3000, "budget_s": 420}}
+        "thorough": {"cases": 2000000, "jobs": 16, "timeout": 3000, "budget_s": 360}}
 FLOORS = {"quick": {"split.sound.armed": 4500, "c08.cut_note": 1500, "c08.event_on_boundary": 800, "c08.same_pitch_two_channels": 300},
           "thorough": {"split.sound.armed": 100000, "c08.cut_note": 30000}}
 
